@@ -9,7 +9,7 @@ from oracle_util import *  # noqa
 from protocol import from_real
 
 ID = "C15"
-LEAN_MODULE = ["SCoda.Props.C15", "SCoda.Props.NotesB", "SCoda.Props.ViewTie", "SCoda.Props.WrapTie", "SCoda.Props.AbsTie2"]
+LEAN_MODULE = ["SCoda.Props.C15", "SCoda.Props.NotesB", "SCoda.Props.ViewTie", "SCoda.Props.WrapTie", "SCoda.Props.AbsTie2", "SCoda.Props.SortTie"]
 LEVEL = "proof"
 CLAUSES = [
     ("sounding set of the merge = union of the inputs' sounding sets (overlaps fused from earliest start to latest end); the merge is well-formed; "
@@ -36,6 +36,8 @@ CLAUSES = [
       "SCoda.NotesB.order_independent_notes_sorted"]),
     ('TIE BY TRANSLATION, absolute view with object identity: the dict-heavy / aliasing methods of AbsoluteSequence are re-translated statement by statement on every run (Gen/AbsFns2.lean, tools/py2lean_abs2.py: Message objects live in a heap, a reference is a position tag, stores through any alias update the heap cell, dicts are insertion-ordered association lists, while loops carry proved fuel bounds) and proved equal to the hand models, for every heap and reference list with references into the heap and channels not None: merge read back = the model mergeAbs, no hypothesis',
      ["SCoda.AbsTie2.merge_refs", "SCoda.AbsTie2.mergeAbs_eq"]),
+    ("TIE BY TRANSLATION of the sort that every absolute-view operation goes through: AbsoluteSequence.sort (its list.sort call and the key lambda (time, -1 if channel is None else channel, message_type, note)), MessageType.__lt__ and the declaration order of the enum members are re-translated expression by expression on every run (Gen/SortFns.lean, tools/py2lean_sort.py; Python's == and < on None / int / enum members, tuple comparison, list.index and list.sort are the language model Model/SortLib.lean) and proved equal to the hand model: on every message list whose keys Python can compare (the times are all None or all ints; two messages equal in (time, channel, type) have both notes None or both ints) the translated sort returns exactly sortAbs l, through any projection (heap references, tagged messages); outside that domain it raises TypeError, as the real code does (replayed: a NOTE_ON with a note and a hand-built NOTE_ON without one on the same tick and channel; a message without a time in a timed sequence; two TIME_SIGNATUREs on one tick and channel are inside the domain); keyLe a b holds iff key(b) < key(a) is False; Python's key order is a strict weak order on the domain and ANY stable sort by it (a permutation that is sorted and keeps the relative order of equal keys) is sortAbs l — modelling CPython's timsort by an insertion sort is a theorem, the one assumption left is that list.sort is a stable comparison sort. This discharges the list.sort links of tools/py2lean.py (sort -> sortAbs) and tools/py2lean_abs2.py (sortRefs), which until now were only fingerprinted (tools/conventions.py)",
+     ["SCoda.SortTie.sort_eq", "SCoda.SortTie.sortOf_eq_isort", "SCoda.SortTie.sort_raises", "SCoda.SortTie.sortOf_raises", "SCoda.SortTie.sort_ok_iff", "SCoda.SortTie.keyLe_iff", "SCoda.SortTie.keyLt_eq", "SCoda.SortTie.keyLt_ok_iff_comparable", "SCoda.SortTie.messageTypeLt_eq", "SCoda.SortTie.messageTypeLt_nonmember", "SCoda.SortTie.members_eq", "SCoda.SortTie.memberNames_eq", "SCoda.SortTie.generated_order_strictWeakOrder", "SCoda.SortTie.any_stable_sort_eq_sortAbs", "SCoda.SortTie.stable_sort_is_isortBy", "SCoda.SortTie.isortBy_is_stable_sort", "SCoda.SortTie.sortDom_of_wellFormed", "SCoda.SortTie.sortRefs_discharged", "SCoda.SortTie.viewSort_discharged", "SCoda.SortTie.sort_eq_statement_false", "SCoda.SortTie.keyLe_iff_statement_false"]),
 ]
 RULE = ("families of 1-3 well-formed sequences x <=4 notes, same and different channels, several pitch sets (two colliding pitches, range and "
         "MIDI limits, a cluster), overlapping and abutting notes, different lengths, empty sequences, inputs that all start with the same / their "
